@@ -17,6 +17,7 @@
 
 import datetime
 import logging
+import os
 import sys
 from pathlib import Path
 from typing import Any, Collection, Iterable, Optional, Sequence, Type, cast
@@ -28,7 +29,7 @@ from jinja2 import Environment, FileSystemLoader, Template
 from jinja2.exceptions import TemplateNotFound, TemplateSyntaxError
 
 from .. import ReuseInfo
-from .._annotate import add_header_to_file
+from .._annotate import add_header_to_file, own_reuse_info
 from .._util import _determine_license_path, _determine_license_suffix_path
 from ..comment import (
     NAME_STYLE_MAP,
@@ -497,8 +498,12 @@ def annotate(
             result += 1
             continue
         binary = is_binary(str(path))
+        file_info = reuse_info
         if binary or is_uncommentable(path) or force_dot_license:
             new_path = _determine_license_suffix_path(path)
+            if not os.path.lexists(new_path):
+                # A new .license file hides what the file declares itself.
+                file_info = reuse_info | own_reuse_info(path)
             if binary:
                 _LOGGER.info(
                     _(
@@ -513,7 +518,7 @@ def annotate(
                 continue
         result += add_header_to_file(
             path=path,
-            reuse_info=reuse_info,
+            reuse_info=file_info,
             template=template,
             template_is_commented=commented,
             style=style,
